@@ -67,7 +67,7 @@ def load_via_public_path(path, target, sender):
 
 
 # =========================================================================== Part A
-INBOUND_A = ("app", "app_pad", "gap_app", "gapfill1", "gapfill3", "gapfill_close", "reset_fwd", "reset_back", "pd_fill", "rr", "tr", "hb")
+INBOUND_A = ("app", "app_pad", "gap_app", "gapfill1", "gapfill3", "gapfill_close", "reset_fwd", "reset_noop", "reset_back", "pd_fill", "rr", "tr", "hb")
 
 
 class SimA:
@@ -235,6 +235,11 @@ class SimA:
                 fr = refs.frame("4", n, T, S, [(36, new)])
                 n = new - 1
                 self.gap = True
+            elif k == "reset_noop":
+                # reset-mode SequenceReset whose own number and NewSeqNo are both the expected number: changes nothing,
+                # the announced message with that number follows
+                fr = refs.frame("4", n, T, S, [(36, n)])
+                n = n - 1
             elif k == "reset_back":
                 # reset-mode SequenceReset to a LOWER number (the library honours it; pinned by its tests): the journal
                 # may then hold rows above the counters - a restart must still come back with the live counters
